@@ -108,6 +108,16 @@ reg("C18", "exploration",
     "property-based testing (Hypothesis) with FASTA-only oracle + metamorphic read-subset relation",
     "DESIGN.md section 4 C18")
 
+reg("C16", "exploration",
+    "Every SAM-valid CIGAR up to 5 (quick) / 6 (thorough) operations with lengths 1-3 is enumerated and its exon and "
+    "read blocks compared with an independent CIGAR walk (cross-checked against pysam); Hypothesis adds long random "
+    "CIGARs through pysam + AlignmentInfo and alignments with aligned polyA/polyT tail exons through the real "
+    "PolyAFinder/PolyAFixer with validity + projection oracle for the trimmed exon list and tail positions.",
+    "Segments without an aligned base are UNSPECIFIED; cigar-operation index blocks are outside the statement and not "
+    "checked; one repaired defect (shift_polya) listed as fixed.",
+    "exhaustive bounded enumeration + property-based testing (Hypothesis) against a reference model",
+    "DESIGN.md section 4 C16")
+
 NOT_YET = "check not built yet in this session (see DESIGN.md section 6a build order)"
 
 
